@@ -17,6 +17,7 @@ type Sorts struct {
 	structs map[string]*structInfo
 	arrays  map[string]*arrayInfo
 	tags    map[string]int // dynamic type tags
+	tagTypes map[int]types.Type
 }
 
 type structInfo struct {
@@ -198,6 +199,10 @@ func (s *Sorts) TypeTag(t types.Type) int {
 	}
 	v := len(s.tags) + 1
 	s.tags[k] = v
+	if s.tagTypes == nil {
+		s.tagTypes = map[int]types.Type{}
+	}
+	s.tagTypes[v] = t
 	return v
 }
 
